@@ -13,6 +13,8 @@ pub enum Ctor {
     Str(String),
     Data(Vec<u8>),
     Empty(u16),
+    /// `Response::empty(status)` given a Content-Length header, then cloned (a template for HEAD answers)
+    EmptyLen(u16, usize),
     File(Vec<u8>),
 }
 
@@ -112,6 +114,10 @@ fn construct(c: &Ctor, tmpdir: &str, id: u64) -> BoxResp {
                 Response::empty(*s).boxed()
             }
         }
+        Ctor::EmptyLen(s, n) => Response::empty(*s)
+            .with_header(Header::from_bytes(&b"Content-Length"[..], n.to_string().as_bytes()).unwrap())
+            .clone()
+            .boxed(),
         Ctor::File(d) => {
             let path = format!("{}/resp-{}-{}.bin", tmpdir, std::process::id(), id);
             std::fs::write(&path, d).unwrap();
@@ -156,18 +162,22 @@ pub fn run_case(id: u64, c: &RespCase, tmpdir: &str) -> String {
         )),
         Ctor::Str(s) => line.push_str(&format!(" ctor=string cbody={}", hex(s.as_bytes()))),
         Ctor::Data(d) => line.push_str(&format!(" ctor=data cbody={}", hex(d))),
-        Ctor::Empty(s) => line.push_str(&format!(" ctor=empty cstatus={}", s)),
+        Ctor::Empty(s) | Ctor::EmptyLen(s, _) => line.push_str(&format!(" ctor=empty cstatus={}", s)),
         Ctor::File(d) => line.push_str(&format!(" ctor=file cbody={}", hex(d))),
     }
-    let ops: Vec<String> = c
-        .ops
-        .iter()
-        .map(|o| match o {
+    // (for the model `EmptyLen` is `empty` followed by the header: cloning changes nothing)
+    let pre: Vec<String> = match &c.ctor {
+        Ctor::EmptyLen(_, n) => vec![format!("h:{}:{}", hex(b"Content-Length"), hex(n.to_string().as_bytes()))],
+        _ => vec![],
+    };
+    let ops: Vec<String> = pre
+        .into_iter()
+        .chain(c.ops.iter().map(|o| match o {
             Op::H((n, v)) => format!("h:{}:{}", hex(n), hex(v)),
             Op::S(s) => format!("s:{}", s),
             Op::T(t) => format!("t:{}", t),
             Op::D(l, ps) => format!("d:{}:{}", opt(l), pieces_hex(ps, ".")),
-        })
+        }))
         .collect();
     line.push_str(&format!(" ops={}", ops.join(";")));
     line.push_str(&format!(
@@ -452,6 +462,7 @@ pub fn gen_random(rng: &mut Rng) -> RespCase {
             Ctor::Str(s)
         }
         1 => Ctor::Data(body.clone()),
+        2 if rng.chance(1, 3) => Ctor::EmptyLen(status, *rng.pick(&[0usize, 5, 12345])),
         2 => Ctor::Empty(status),
         3 if rng.chance(1, 2) => Ctor::File(body.clone()),
         _ => {
@@ -568,6 +579,17 @@ pub fn enumerate_c05(full: bool) -> Vec<RespCase> {
                             }
                         }
                     }
+                }
+            }
+        }
+    }
+    // constructors that declare a length themselves, at the boundary 0
+    for ver in versions {
+        for nobody in [false, true] {
+            for n in [0usize, 5] {
+                let body: Vec<u8> = (0..n).map(|i| b'a' + (i % 26) as u8).collect();
+                for ctor in [Ctor::File(body.clone()), Ctor::Data(body.clone()), Ctor::EmptyLen(200, n)] {
+                    out.push(RespCase { ctor, ops: vec![], ver, reqhdrs: vec![], nobody, upgrade: None });
                 }
             }
         }
